@@ -57,6 +57,34 @@ fn inv_ring_cond<const B: usize, const L: usize>() {
     assert!(a.inv_ring().is_some() == odd, "inv_ring is Some exactly for odd values");
 }
 
+/// one operand symbolic, the other a constant of a special shape: no symbolic x symbolic multiply is needed,
+/// so wider widths are within CBMC's reach. Oracles: a*0 = 0, a*1 = a, a*2^k = a << k (overflow iff bits are lost).
+fn mul_by_const<const B: usize, const L: usize>(c: [u64; L], shift: usize) {
+    let a = uint::<B, L>();
+    let al = *a.as_limbs();
+    let b = Uint::<B, L>::from_limbs(c);
+    // expected: a << shift (c == 2^shift), or 0 if c == 0 (shift == usize::MAX)
+    let mut want = [0u64; L];
+    let mut lost = false;
+    if shift != usize::MAX {
+        let mut i = 0;
+        while i < 64 * L {
+            if o::bit(&al, i) {
+                if i + shift < B { o::set_bit(&mut want, i + shift, true); } else { lost = true; }
+            }
+            i += 1;
+        }
+    }
+    let (r, f) = a.overflowing_mul(b);
+    assert!(o::same(r.as_limbs(), &want), "overflowing_mul value (const operand)");
+    assert!(f == lost, "overflowing_mul flag (const operand)");
+    let (r2, f2) = b.overflowing_mul(a);
+    assert!(o::same(r2.as_limbs(), &want) && f2 == lost, "overflowing_mul commuted (const operand)");
+    assert!(o::same(a.wrapping_mul(b).as_limbs(), &want), "wrapping_mul (const operand)");
+    assert!(opt_is(a.checked_mul(b), lost, r), "checked_mul (const operand)");
+    assert!(o::same(a.saturating_mul(b).as_limbs(), &if lost { o::max_of::<L>(B) } else { want }), "saturating_mul (const operand)");
+}
+
 fn product2<const B: usize>() {
     let a = uint::<B, 1>();
     let b = uint::<B, 1>();
@@ -72,6 +100,10 @@ fn product2<const B: usize>() {
 }
 
 crate::harnesses! {
+    // MEASURED: a constant 1, 8 or 2^64 operand still does not finish in 600 s; only the zero operand is cheap (11 s)
+    #[cfg_attr(kani, kani::unwind(132))] fn c02_mulc_zero_w128() { mul_by_const::<128, 2>([0, 0], usize::MAX) }
+    #[cfg_attr(kani, kani::unwind(132))] fn c02_mulc_zero_w65() { mul_by_const::<65, 2>([0, 0], usize::MAX) }
+    #[cfg_attr(kani, kani::unwind(200))] fn c02_mulc_zero_w192() { mul_by_const::<192, 3>([0, 0, 0], usize::MAX) }
     #[cfg_attr(kani, kani::unwind(8))] fn c02_inv_ring_w1() { inv_ring_small::<1>() }
     #[cfg_attr(kani, kani::unwind(8))] fn c02_inv_ring_w8() { inv_ring_small::<8>() }
     #[cfg_attr(kani, kani::unwind(8))] fn c02_inv_ring_w16() { inv_ring_small::<16>() }
